@@ -86,6 +86,91 @@ def _fields():
     return FULL if os.environ.get("C02_FIELDS", "") == "full" else FIELDS
 
 
+# ----------------------------------------------------------------------------- exhaustive small scope (thorough tier)
+
+def _T(t, h):
+    return {"tail": t, "head": h, "as": "tuple"}
+
+
+def small_alphabet():
+    """41 calls over the universe nodes {0,1,2} (+ missing 3, None), edge IDs {0,1}: every mutator, both directions,
+    weak/strong, remove_empty on/off, every bulk format, a None member, a short member tuple, copy/cleanup/relabel.
+    `freeze` is left out (see dhg.Gen.frozen_links)."""
+    A = [{"op": "add_node", "n": 0, "attr": []},
+         {"op": "add_nodes_from", "items": [{"n": 2}, {"n": 0, "attr": [["w", 1]]}], "attr": []}]
+    for n in (0, 1):
+        for strong in (False, True):
+            for re in (True, False):
+                A.append({"op": "remove_node", "n": n, "strong": strong, "remove_empty": re})
+    A += [{"op": "remove_nodes_from", "ns": [1, 2], "strong": True, "remove_empty": True},
+          {"op": "remove_nodes_from", "ns": [0, 3], "strong": False, "remove_empty": True},
+          {"op": "add_edge", "members": _T([0], [1]), "idx": "$auto", "attr": []},
+          {"op": "add_edge", "members": _T([0, 1], [1, 2]), "idx": "$auto", "attr": []},
+          {"op": "add_edge", "members": _T([2], []), "idx": 0, "attr": []},
+          {"op": "add_edge", "members": _T([1], [1]), "idx": 1, "attr": []},
+          {"op": "add_edge", "members": _T([0, None], [1]), "idx": "$auto", "attr": []},
+          {"op": "add_edge", "members": {"bad": "short"}, "idx": 0, "attr": []},
+          {"op": "add_edges_from", "fmt": 1, "items": [{"members": _T([0], [1])}, {"members": _T([1], [2, 0])}], "attr": []},
+          {"op": "add_edges_from", "fmt": 2, "items": [{"members": _T([0], [2]), "idx": 1}, {"members": _T([1], []), "idx": 0}], "attr": []},
+          {"op": "add_edges_from", "fmt": 5, "items": [{"members": _T([0, 1], [None]), "idx": 1}], "attr": []},
+          {"op": "add_edges_from", "fmt": 3, "items": [{"members": _T([2], [2]), "attr": [["w", 1]]}], "attr": []},
+          {"op": "add_node_to_edge", "e": 0, "n": 0, "direction": "in"},
+          {"op": "add_node_to_edge", "e": 0, "n": 2, "direction": "out"},
+          {"op": "add_node_to_edge", "e": 1, "n": 1, "direction": "in"},
+          {"op": "add_node_to_edge", "e": 1, "n": 1, "direction": "out"},
+          {"op": "add_node_to_edge", "e": 1, "n": None, "direction": "in"}]
+    for e, n, d, re in ((0, 0, "in", True), (0, 1, "in", True), (0, 1, "out", True), (1, 2, "in", False), (0, 2, "out", True), (1, 0, "out", True)):
+        A.append({"op": "remove_node_from_edge", "e": e, "n": n, "direction": d, "remove_empty": re})
+    A += [{"op": "remove_edge", "e": 0}, {"op": "remove_edge", "e": 1}, {"op": "remove_edges_from", "es": [1, 0]},
+          {"op": "clear", "remove_net_attr": True}, {"op": "copy"},
+          {"op": "cleanup", "isolates": False, "relabel": True, "in_place": True},
+          {"op": "cleanup", "isolates": False, "relabel": False, "in_place": False},
+          {"op": "relabel", "label_attribute": "label"}]
+    return A
+
+
+PRELUDE = [{"op": "add_edges_from", "fmt": 1, "items": [{"members": _T([0, 1], [1, 2])}, {"members": _T([2], [0])}], "attr": []}]
+
+
+def small_scope_histories(depth):
+    import itertools
+    A = small_alphabet()
+    for start in ([], PRELUDE):
+        for k in range(1, depth + 1):
+            for seq in itertools.product(A, repeat=k):
+                yield start + list(seq)
+
+
+def run_exhaustive(ctx, fields, depth, chunk=4000):
+    """all call sequences of length <= depth over the small alphabet, from the empty network and from a fixed
+    two-edge prelude; same predicate + correspondence as the generated histories (run in chunks)"""
+    import copy as _copy
+    keep = {k: ctx.stats[k] for k in ("histories", "corpus_histories")}
+    total, dis_total, dis, buf = 0, ctx.extra.get("disagreements_total", 0), [], []
+
+    def flush():
+        nonlocal total, dis_total, dis, buf
+        if not buf:
+            return
+        d, h = run_sm(ctx, M, "DHG", fields, pred, 0, derive=derive, extra_histories=buf,
+                      corr_name="correspondence DHG~DiHypergraph (exhaustive small scope)")
+        total += len(buf)
+        dis_total += ctx.extra.get("disagreements_total", 0)
+        dis += [(h[hi][: oi + 1], diff) for hi, oi, diff, *_ in d[:3]]
+        buf = []
+    for hist in small_scope_histories(depth):
+        buf.append(_copy.deepcopy(hist))
+        if len(buf) >= chunk:
+            flush()
+    flush()
+    ctx.stats["histories"] = keep["histories"]
+    ctx.stats["corpus_histories"] = keep["corpus_histories"]
+    ctx.stats["exhaustive_histories"] = total
+    ctx.extra["disagreements_total"] = dis_total
+    ctx.broken[:] = list(dict.fromkeys(ctx.broken))
+    return dis
+
+
 def run(ctx):
     ok = build_and_audit(ctx, "XgiModel.Props.C02", ["XgiModel.C02.Drive"])
     fields = _fields()
@@ -94,8 +179,17 @@ def run(ctx):
                 "both head and tail, empty head or tail, malformed member shapes, copy, cleanup, relabel, freeze); the WFd "
                 "clauses are evaluated on the public observations after every call, also after calls that raised; "
                 "non-trivial = distinct projected state with an edge with non-empty tail and head after >=2 op kinds")
-    dis, hist = run_sm(ctx, M, "DHG", fields, pred, ctx.n(300, 12000), derive=derive,
+    dis, hist = run_sm(ctx, M, "DHG", fields, pred, ctx.n(1000, 6000), derive=derive,
                        corr_name="correspondence DHG~DiHypergraph (" + ("full snapshot" if fields is FULL else "incidence projection") + ")")
+    if not ctx.quick:
+        depth = 3
+        xdis = run_exhaustive(ctx, fields, depth)
+        ctx.exhaustive = True
+        ctx.extra["exhaustive_space"] = (f"correspondence + predicate on all call sequences of length <= {depth} over a fixed alphabet of "
+                                         f"{len(small_alphabet())} calls (nodes 0..2, missing 3, None; edge ids 0,1; every mutator except freeze), "
+                                         "started from the empty network and from a fixed two-edge prelude; this validates the model, it is not the proof")
+        if xdis and not dis:
+            dis, hist = [(i, len(ops) - 1, diff) for i, (ops, diff) in enumerate(xdis)], [ops for ops, _ in xdis]
     if (dis or not ok) and not ctx.violations:
         targeted_search(ctx, M, pred, dis, hist, n=ctx.n(1500, 20000), derive=derive)
         if not ctx.violations:
